@@ -48,6 +48,8 @@ class HarnessError(Exception):
 def digest(*parts):
     h = hashlib.sha256()
     for p in parts:
+        if not isinstance(p, (str, bytes)):
+            p = repr(p)
         if isinstance(p, str):
             p = p.encode("utf-8", "surrogateescape")
         h.update(p)
